@@ -8,6 +8,7 @@ package main
 // The same dump format is produced by lean/Driver/Peg.lean from the Lean PEG interpreter.
 //
 // Canonical dump (no spaces):
+//   deep   := file Q[name@hex(origin path)=deep,..]   (per include edge, sorted by include name)
 //   file   := I[inc,..]N[ns,..]T[td,..]C[const,..]E[enum,..]S[st,..]X[exc,..]U[union,..]V[svc,..]P[scope,..]
 //   hex    := lower-case hex of the UTF-8 bytes, "-" when empty
 //   anns   := "" | (name=hex,name=hex)
@@ -430,12 +431,14 @@ func pxDumpFile(f *pxFile, deep bool) string {
 	}
 	b.WriteString(pxSection("P", it))
 	if deep {
+		// per include edge: the include name, the ORIGIN (path of the file the edge resolves to,
+		// relative to the root of the tree) and the deep dump of exactly that file
 		it = nil
 		incs := append([]*pxInclude{}, f.Includes...)
 		sort.SliceStable(incs, func(i, j int) bool { return pxIncludeName(incs[i].Path) < pxIncludeName(incs[j].Path) })
 		for _, i := range incs {
 			if i.File != nil {
-				it = append(it, pxIncludeName(i.Path)+"="+pxDumpFile(i.File, true))
+				it = append(it, pxIncludeName(i.Path)+"@"+pxHex(i.File.Name)+"="+pxDumpFile(i.File, true))
 			}
 		}
 		b.WriteString(pxSection("Q", it))
@@ -548,7 +551,7 @@ func pxRStructs(tag string, ss []*parser.Struct, want parser.StructType) string 
 	return pxSection(tag, it)
 }
 
-func pxRDump(f *parser.Frugal, deep bool) string {
+func pxRDumpRoot(f *parser.Frugal, deep bool, root string) string {
 	var b strings.Builder
 	var it []string
 	for _, i := range f.Includes {
@@ -622,9 +625,18 @@ func pxRDump(f *parser.Frugal, deep bool) string {
 		sort.Strings(keys)
 		it = nil
 		for _, k := range keys {
-			it = append(it, k+"="+pxRDump(f.ParsedIncludes[k], true))
+			inc := f.ParsedIncludes[k]
+			it = append(it, k+"@"+pxHex(strings.TrimPrefix(inc.File, root))+"="+pxRDumpRoot(inc, true, root))
 		}
 		b.WriteString(pxSection("Q", it))
 	}
 	return b.String()
+}
+
+// pxRDump: shallow dump (deep=false), or deep dump of a program whose main file has the
+// root-relative path mainRel (the root is what precedes it in the parsed file's path).
+func pxRDump(f *parser.Frugal, deep bool) string { return pxRDumpRoot(f, deep, "") }
+
+func pxRDumpDeep(f *parser.Frugal, mainRel string) string {
+	return pxRDumpRoot(f, true, strings.TrimSuffix(f.File, mainRel))
 }
